@@ -67,4 +67,60 @@ theorem walk_chainOK (r : Ring) (s : Nat) (a : Nat) (c : List Nat) (start stop :
   rw [List.filter_filter]
   rfl
 
+theorem filterMap_fst_sublist {β} (f : Nat → Option (Nat × β)) (hf : ∀ s p, f s = some p → p.1 = s) :
+    ∀ l : List Nat, ((l.filterMap f).map (·.1)).Sublist l := by
+  intro l
+  induction l with
+  | nil => simp
+  | cons a t ih =>
+    simp only [List.filterMap_cons]
+    cases hfa : f a with
+    | none => exact ih.cons _
+    | some p =>
+      simp only [List.map_cons, hf a p hfa]
+      exact ih.cons_cons _
+
+/-- The series of a `Select` result are strictly ascending (sorted by series labels), each at most once. -/
+theorem select_series_ascending (r : Ring) (start stop : Int) (sel : Nat → Bool) :
+    ((select r start stop sel).map (·.1)).Pairwise (· < ·) := by
+  unfold select
+  split
+  · simp
+  · refine List.Pairwise.sublist (filterMap_fst_sublist _ ?_ _) List.pairwise_lt_range
+    intro s p
+    split
+    · intro h; cases h
+    · simp only []
+      split
+      · intro h; cases h
+      · split
+        · intro h; cases h
+        · split
+          · intro h; cases h
+          · intro h; cases h; rfl
+
+/-- Every entry of a `Select` result is the walk over the list of a series that has an index entry and
+    matches, and is non-empty. -/
+theorem select_mem (r : Ring) (start stop : Int) (sel : Nat → Bool) (s : Nat) (xs : List Ex)
+    (h : (s, xs) ∈ select r start stop sel) :
+    sel s = true ∧ xs ≠ [] ∧ ∃ ie, r.index s = some ie ∧
+      xs = walk r start stop (r.exs.length + 1) (r.getO ie.oldest) := by
+  unfold select at h
+  split at h
+  · simp at h
+  · simp only [List.mem_filterMap, List.mem_range] at h
+    obtain ⟨s', _, h⟩ := h
+    split at h
+    · cases h
+    · rename_i ie hie
+      split at h
+      · cases h
+      · split at h
+        · cases h
+        · split at h
+          · cases h
+          · rename_i hsel hne
+            cases h
+            refine ⟨by simpa using hsel, ?_, ie, hie, rfl⟩
+            intro hnil; simp [hnil] at hne
 end Prom.Exemplars
